@@ -1342,6 +1342,297 @@ def stream_derive(ctx, only=None):
         ctx.stream_broken('derive', f'{len(st.disagreements)} disagreements; first: {json.dumps(st.disagreements[0], default=str)[:700]}')
 
 
+
+# ------------------------------------------------------------------------------------------ stream history
+def set_shared_leaf(t, name, leaf):
+    """replace every bioDraws leaf called `name` by the ONE dict `leaf` (same sid -> same Python object)"""
+    if t['h'][0] == 'Draws' and t['h'][1] == name:
+        return leaf
+    t['k'] = [set_shared_leaf(k, name, leaf) for k in t['k']]
+    return t
+
+
+def hist_to_coq(j, kinds):
+    """Gallina term of the ORACLE tree: Derive(child, name) -> D w child, Integrate(...) -> its closed form"""
+    from bridge import head_to_coq
+    h = j['h']
+    if h[0] == 'Derive':
+        w = f'(WBeta {coq_string(h[1])})' if kinds[h[1]] == 'beta' else f'(WVar {coq_string(h[1])})'
+        return f'(D {w} {hist_to_coq(j["k"][0], kinds)})'
+    if h[0] == 'Integrate':
+        return hist_to_coq(j['closed'], kinds)
+    return '(Node ' + head_to_coq(h) + ' [' + '; '.join(hist_to_coq(k, kinds) for k in j['k']) + '])'
+
+
+HIST_SCRIPTS = [
+    # a model simulated for the first time after another one, sharing the object, was built (both orders)
+    [['new', 'P'], ['new', 'Q'], ['sim', 'P', 0], ['sim', 'Q', 1], ['sim', 'P', 1]],
+    [['new', 'Q'], ['new', 'P'], ['sim', 'Q', 0], ['sim', 'P', 1], ['sim', 'Q', 1]],
+    [['new', 'P'], ['new', 'S'], ['sim', 'P', 1], ['sim', 'S', 0]],
+    [['new', 'S'], ['new', 'P'], ['new', 'Q'], ['sim', 'S', 0], ['sim', 'Q', 1], ['sim', 'P', 0]],
+    [['new', 'P'], ['sim', 'P', 0], ['new', 'Q'], ['sim', 'P', 1], ['sim', 'Q', 0], ['sim', 'P', 0]],
+    # identifiers prepared once and reused, with a separate evaluation (temporary identifiers) in between
+    [['prep', 'P'], ['gvp', 'P', 0], ['gvc', 'S', 1], ['gvp', 'P', 1]],
+    [['prep', 'P'], ['gvc', 'S', 0], ['gvp', 'P', 0]],
+    [['prep', 'Q'], ['gvp', 'Q', 1], ['gvc', 'P', 0], ['gvp', 'Q', 0]],
+    [['prep', 'P'], ['gvc', 'Q', 1], ['gvp', 'P', 1], ['gvc', 'S', 0], ['gvp', 'P', 0]],
+    [['fn', 'P', 0], ['gvc', 'S', 1], ['fn', 'P', 1]],
+    [['fn', 'Q', 1], ['gvc', 'P', 0], ['fn', 'Q', 0], ['gvc', 'S', 0], ['fn', 'Q', 1]],
+    # mixtures
+    [['new', 'P'], ['gvc', 'S', 1], ['sim', 'P', 0], ['gvc', 'Q', 0], ['sim', 'P', 1]],
+    [['new', 'P'], ['prep', 'Q'], ['sim', 'P', 0], ['gvp', 'Q', 1], ['new', 'S'], ['gvp', 'Q', 0], ['sim', 'P', 1]],
+    [['prep', 'S'], ['new', 'P'], ['gvp', 'S', 0], ['sim', 'P', 1], ['gvp', 'S', 1]],
+    [['gvc', 'P', 0], ['new', 'Q'], ['gvc', 'S', 1], ['sim', 'Q', 0], ['gvc', 'P', 1]],
+]
+
+
+def random_hist_script(rng, models):
+    script, built, prepped = [], set(), set()
+    for _ in range(rng.randint(4, 7)):
+        m = rng.choice(models)
+        ops = ['new', 'gvc', 'prep']
+        if m in built:
+            ops += ['sim', 'sim']
+        if m in prepped:
+            ops += ['gvp', 'gvp']
+        op = rng.choice(ops)
+        if op == 'new':
+            built.add(m)
+            script.append(['new', m])
+        elif op == 'prep':
+            prepped.add(m)
+            script.append(['prep', m])
+        else:
+            script.append([op, m, rng.choice([0, 1])])
+    if not any(s_[0] in ('sim', 'gvp') for s_ in script):
+        m = rng.choice(models)
+        script += [['new', m], ['sim', m, 1]]
+    return script
+
+
+def gen_history_case(rng, i):
+    kind = ['leaf', 'mc', 'derive', 'integrate'][i % 4]
+    names = rng.sample(DRAW_NAMES, 3)
+    xi, d1, d2 = names                        # xi: the shared variable; d1 only in P, d2 only in Q (when used)
+    tys = rng.sample(USER_TYPES[:5], 3)
+    tags = rng.sample(range(1, 7), 3)
+    gens = [[t, 'tag', k] for t, k in zip(tys, tags)]
+    rng.shuffle(gens)
+    DX, D1, D2 = (xi, tys[0]), (d1, tys[1]), (d2, tys[2])
+    leaf = lambda d: {'h': ['Draws', d[0], d[1]], 'k': []}      # noqa: E731
+    A = {'h': ['Beta', 'A_first', False], 'k': []}
+    Z = {'h': ['Beta', 'z_last', False], 'k': []}
+    extra = {'A_first': {'value': 0.75, 'fixed': False, 'positive': True, 'lb': None, 'ub': None},
+             'z_last': {'value': -1.25, 'fixed': False, 'positive': False, 'lb': None, 'ub': None}}
+    kinds = {}
+    sid = 10 ** 6
+    q_extra_draw = rng.random() < 0.5
+    if kind in ('leaf', 'mc'):
+        g = DGen(rng, [DX], max_depth=rng.choice([1, 2]), share_p=0.0, heads={'exclude': ['NormalCdf', 'LogLogit', 'Elem']})
+        betas = g.betas
+        if kind == 'leaf':
+            shared = dict(leaf(DX), sid=sid)
+            P = U('MonteCarlo', B('Plus', g.small(g.max_depth), {'h': ['MultSum'], 'k': [B('Times', N(0.25), leaf(D1)), B('Times', N(2.5), leaf(DX)),
+                                                                                  B('Times', A, V('x1'))]}))
+            q_in = B('Times', leaf(DX), leaf(DX))
+            if q_extra_draw:
+                q_in = B('Plus', q_in, B('Times', N(0.5), leaf(D2)))
+            Q = U('MonteCarlo', B('Plus', q_in, B('Times', Z, g.small(1))))
+            P, Q = set_shared_leaf(P, xi, shared), set_shared_leaf(Q, xi, shared)
+            formulas, order = {'P': P, 'Q': Q}, ['P', 'Q']
+        else:
+            S = U('MonteCarlo', B('Plus', g.small(g.max_depth), B('Times', N(1.5), leaf(DX))))
+            S['sid'] = sid
+            P = B('Plus', S, U('MonteCarlo', B('Plus', B('Times', N(0.75), leaf(D1)), B('Times', A, V('x1')))))
+            Q = B('Times', S, Z)
+            if q_extra_draw:
+                Q = B('Plus', Q, U('MonteCarlo', B('Times', leaf(D2), leaf(DX))))
+            formulas, order = {'S': S, 'P': P, 'Q': Q}, ['S', 'P', 'Q']
+        rows = g.rows(1)
+    elif kind == 'derive':
+        while True:
+            # bioLinearUtility under Derive is the known engine finding C10/derive/bioLinearUtility (stream derive): not repeated here
+            g = SGen(rng)
+            f = g.real(rng.choice([2, 3]))
+            if 'LinUtil' not in heads_in(f):
+                break
+        tk = rng.choice(['beta', 'var', 'var'])
+        t = g.beta() if tk == 'beta' else g.var()
+        name = t['h'][1]
+        f = B('Plus', f, B('Times', B('Times', t, t), g.var(positive=True)))
+        S = {'h': ['Derive', name], 'k': [f], 'sid': sid}
+        kinds[name] = tk
+        betas = g.betas
+        P = B('Plus', B('Times', A, V('x2')), S)
+        if rng.random() < 0.6:
+            P = B('Plus', P, U('MonteCarlo', B('Times', N(0.5), leaf(D1))))
+        Q = B('Times', S, Z)
+        if q_extra_draw:
+            Q = B('Plus', Q, U('MonteCarlo', B('Times', leaf(D2), V('p1'))))
+        formulas, order = {'S': S, 'P': P, 'Q': Q}, ['S', 'P', 'Q']
+        rows = g.rows(1)
+    else:
+        g = {'betas': {}, 'uses_rows': False}
+        w_name = rng.choice(['omega', 'eta'])
+        w = RV(w_name)
+        cs = [coef(rng, g, ['x1', 'x2']) for _ in range(3)]
+        body = B('Times', {'h': ['MultSum'], 'k': [cs[0][0], B('Times', cs[1][0], w), B('Times', cs[2][0], B('Times', w, w))]}, density(w))
+        S = {'h': ['Integrate', w_name], 'k': [body], 'sid': sid, 'closed': B('Plus', cs[0][0], cs[2][0])}
+        betas = g['betas']
+        for b in betas.values():
+            b.setdefault('positive', b['value'] > 0)
+        P = B('Plus', B('Plus', S, B('Times', A, V('x1'))), U('MonteCarlo', B('Times', N(0.5), leaf(D1))))
+        Q = B('Times', S, Z)
+        if q_extra_draw:
+            Q = B('Plus', Q, U('MonteCarlo', leaf(D2)))
+        formulas, order = {'S': S, 'P': P, 'Q': Q}, ['S', 'P', 'Q']
+        rows = [{'x1': val(dy(rng, nonzero=True)), 'x2': val(dy(rng, positive=True))}]
+    betas = dict(betas)
+    betas.update(extra)
+    r = rng.random()
+    script = [list(s_) for s_ in rng.choice(HIST_SCRIPTS)] if r < 0.6 else random_hist_script(rng, order)
+    if 'S' not in formulas:
+        script = [[s_[0], 'Q' if s_[1] == 'S' else s_[1]] + s_[2:] for s_ in script]
+    if not any(s_[0] == 'fn' for s_ in script) and rng.random() < 0.6:
+        # more than one observation (a function created by create_function returns a sum: one row only)
+        if kind in ('leaf', 'mc', 'derive'):
+            rows = rows + g.rows(rng.choice([1, 2]))
+        else:
+            rows = rows + [{'x1': val(dy(rng, nonzero=True)), 'x2': val(dy(rng, positive=True))}]
+    v0 = {k: v['value'] for k, v in betas.items()}
+    v1 = {k: (v['value'] if v['fixed'] else (v['value'] + 0.25 if v['value'] > 0 else v['value'] - 0.25)) for k, v in betas.items()}
+    return {'kind': kind, 'formulas': formulas, 'order': order, 'shared_sid': sid, 'betas': betas, 'rows': rows, 'gens': gens,
+            'R': rng.choice([1, 2, 5]), 'threads': rng.choice([1, 2]), 'script': script, 'valsets': [v0, v1], 'wrt_kinds': kinds}
+
+
+def stream_history(ctx, only=None):
+    st = ctx.stream('history', 'HISTORIES on one database: formulas S / P / Q sharing ONE object (a bioDraws leaf, or a MonteCarlo / Derive / '
+                    'Integrate node), P and Q declaring different extra draw variables and parameters so that the slot of the shared '
+                    'variable / the index of the differentiated literal differs; scripts of: build a model, simulate (both orders, first '
+                    'simulation after another model was built), get_value_c with temporary identifiers, prepare once + get_value_c('
+                    'prepare_ids=False), a function created once and called again; two value sets; every value vs the proved enclosure of '
+                    'its own formula (Derive -> symbolic D, Integrate -> closed form); non-trivial = a step evaluates a formula after another '
+                    'formula sharing the object was built / prepared / evaluated; distinct by case')
+    rng = ctx.sub_rng('history')
+    cases = only if only is not None else corpus_cases('history') + [gen_history_case(rng, i) for i in range(ctx.n(64, 640))]
+    res = ctx.impl_cases('c10_history.py', cases, chunk=8)
+    how = 'lib/impl/c10_history.py on witness.case (formulas built with one cache: the node with sid = shared_sid is one Python object)'
+    vcases, meta = [], []
+    kinds_seen = {}
+    for c, r in zip(cases, res):
+        wit = {'case': c, 'script': c['script'], 'formulas': {m: strip_closed(c['formulas'][m]) for m in c['order']},
+               'generators': c['gens'], 'N': len(c['rows']), 'R': c['R'], 'betas': c['betas'], 'valsets': c['valsets'], 'rows': c['rows']}
+        if 'crash' in r or 'harness_exc' in r or 'build_exc' in r:
+            ctx.violation('C10/history/crash', 'a history on well-formed formulas sharing an object could not be run', wit, None,
+                          r.get('crash') or r.get('harness_exc') or r.get('build_exc'), how)
+            continue
+        if any(strip_sids(r['back'][m]) != strip_sids(c['formulas'][m]) for m in c['order']):
+            st.disagree({'script': c['script']}, 'bridge round trip differs', None)
+            continue
+        kinds_seen[c['kind']] = kinds_seen.get(c['kind'], 0) + 1
+        touched = set()
+        late = False
+        for s_ in c['script']:
+            if s_[0] in ('sim', 'gvp', 'fn') and touched - {s_[1]}:
+                late = True
+            touched.add(s_[1])
+        st.record({'kind': c['kind'], 'script': c['script'], 'formulas': wit['formulas'], 'R': c['R']}, nontrivial=late)
+        tag = {g[0]: g[2] for g in c['gens']}
+        wk = dict(c.get('wrt_kinds') or {})
+        for step, (s_, vals) in enumerate(zip(c['script'], r['steps'])):
+            if vals == 'ok':
+                continue
+            m = s_[1]
+            tree = c['formulas'][m]
+            text = hist_to_coq(tree, wk)
+            ds = draws_of(strip_sids(tree))
+            k = s_[2] if len(s_) > 2 else 0
+            if isinstance(vals, str):
+                # an exception: the history stops here; regular everywhere according to the model => violation
+                for i, row in enumerate(c['rows']):
+                    env = {'beta': c['valsets'][k], 'var': row, 'draws': [{n: tag_value(tag[ty], i, rr) for n, ty in ds} for rr in range(c['R'])]}
+                    vcases.append({'expr_text': text, 'env': env, 'observed': 'error'})
+                    meta.append((c, wit, step, s_, i, vals, 'exc'))
+                break
+            if isinstance(vals, dict):
+                vals = [vals['sum']]
+            if len(vals) != len(c['rows']):
+                ctx.violation('C10/history/count', f'step {step} {s_}: wrong number of values', dict(wit, step=step), len(c['rows']), vals, how)
+                continue
+            for i, (row, v) in enumerate(zip(c['rows'], vals)):
+                env = {'beta': c['valsets'][k], 'var': row, 'draws': [{n: tag_value(tag[ty], i, rr) for n, ty in ds} for rr in range(c['R'])]}
+                vcases.append({'expr_text': text, 'env': env, 'observed': v if isinstance(v, float) else 'error'})
+                meta.append((c, wit, step, s_, i, v, None))
+    verdicts = check_values_D(ctx, 'c10hist', vcases, batch=max(10, min(100, len(vcases) // 15 + 1))) if vcases else []
+    und = 0
+    excs = {}
+    for (c, wit, step, s_, i, obs, flag), (v, info) in zip(meta, verdicts):
+        if flag == 'exc':
+            excs.setdefault((id(c), step), [c, wit, step, s_, obs, []])[5].append(v)
+            continue
+        if v == 'undecided':
+            und += 1
+            continue
+        st.evaluations += 1
+        if v == 'differ':
+            if ctx.violation(f'C10/history/{c["kind"]}/{s_[0]}-{s_[1]}/{hist_cause(c, step)}',
+                             f'in the history {c["script"]} step {step} {s_} returns a value outside the enclosure of its own formula at that '
+                             'value set: identifiers (draw slot / literal index / parameter) left by another model or evaluation sharing an '
+                             'object were used', dict(wit, step=step, observation=i), info, obs, how):
+                st.disagree({'kind': c['kind'], 'script': c['script'], 'step': step}, info, obs)
+    for (c, wit, step, s_, exc_, vs) in excs.values():
+        if vs and not any(x in ('agree', 'undecided') for x in vs):
+            if ctx.violation(f'C10/history/{c["kind"]}/{s_[0]}-{s_[1]}/{hist_cause(c, step)}/error',
+                             f'in the history {c["script"]} step {step} {s_} fails although its formula is regular at every observation and draw',
+                             dict(wit, step=step), 'a value per observation', exc_, how):
+                st.disagree({'kind': c['kind'], 'script': c['script'], 'step': step}, 'a value', exc_)
+    st.extra.update({'undecided': und, 'shared_object_kinds': kinds_seen})
+    if st.disagreements:
+        ctx.stream_broken('history', f'{len(st.disagreements)} disagreements; first: {json.dumps(st.disagreements[0], default=str)[:700]}')
+
+
+def needs_draws(t):
+    return t['h'][0] == 'Draws' or t['h'] == ['Un', 'MonteCarlo'] or any(needs_draws(k) for k in t['k'])
+
+
+def hist_cause(c, step):
+    """what happened to the formula of a prepare-once step (gvp / fn) since its identifiers were set: '' for the other steps.
+    after-draws-regenerated : another formula declaring another set of draw variables had its identifiers (and so the table
+                              database.theDraws) built on the same database, and this formula reads draws
+    after-other-model       : another formula sharing the object had its identifiers set PERSISTENTLY (model built / simulated,
+                              prepare(), a created function called)"""
+    s_ = c['script'][step]
+    if s_[0] not in ('gvp', 'fn'):
+        return 'plain'
+    m = s_[1]
+    start = None
+    for j in range(step, -1, -1):
+        t = c['script'][j]
+        if t[1] == m and (t[0] == 'prep' if s_[0] == 'gvp' else t[0] == 'fn'):
+            start = j          # fn: the FIRST fn step created the function; gvp: the LAST prepare counts
+            if s_[0] == 'gvp':
+                break
+    if start is None:
+        return 'plain'
+    mine = sorted(draws_of(strip_sids(c['formulas'][m])))
+    regen = other = False
+    for t in c['script'][start + 1: step]:
+        if t[1] == m:
+            continue
+        tr = c['formulas'][t[1]]
+        if t[0] in ('new', 'prep', 'gvc', 'fn') and needs_draws(tr) and needs_draws(c['formulas'][m]) \
+                and sorted(draws_of(strip_sids(tr))) != mine:
+            regen = True
+        if t[0] in ('new', 'sim', 'prep', 'fn'):
+            other = True
+    if regen:
+        return 'after-draws-regenerated' + ('+other-model' if other else '')
+    return 'after-other-model' if other else 'plain'
+
+
+def strip_closed(t):
+    return {'h': t['h'], 'k': [strip_closed(k) for k in t['k']]}
+
 # ------------------------------------------------------------------------------------------ corpus / driver
 def corpus_cases(stream):
     out = []
@@ -1376,6 +1667,7 @@ def run(ctx):
     timed('seed', stream_seed)
     timed('integrate', stream_integrate)
     timed('derive', stream_derive)
+    timed('history', stream_history)
     ctx.notes['stream_wall_s'] = walls
 
 
@@ -1386,6 +1678,8 @@ def replay(ctx, path):
     n0 = len(ctx.violations) + len(ctx.known_hits)
     if 'group' in wit:
         stream_seed(ctx, only=[wit['group']])
+    elif key.startswith('C10/history') and 'case' in wit:
+        stream_history(ctx, only=[wit['case']])
     elif key.startswith('C10/multi') and 'case' in wit:
         t = stream_multi(ctx, only=[wit['case']])
         stream_table(ctx, t, only=[])
